@@ -48,11 +48,15 @@ Record cinfo := { c_fields : list field;
                   c_pre : bool; c_post : bool; c_prede : bool; c_postde : bool;
                   c_ctx : bool;
                   c_parent : option nat; c_tag : option nat; c_disc : option bool;
-                  c_xf : xf }.
+                  c_xf : xf;
+                  c_tagger : bool }.
+(* c_tagger: the class-level discriminator has a variant_tagger_fn (here: the class's name), so every variant is
+   registered under its own name whether or not its body binds the discriminator attribute *)
 Definition env := list cinfo.
-Definition mk_cinfo fl pre post prede postde ctx : cinfo := Build_cinfo fl pre post prede postde ctx None None None xf_none.
+Definition mk_cinfo fl pre post prede postde ctx : cinfo :=
+  Build_cinfo fl pre post prede postde ctx None None None xf_none false.
 Definition mk_cinfo_h fl pre post prede postde ctx par tag disc : cinfo :=
-  Build_cinfo fl pre post prede postde ctx par tag disc xf_none.
+  Build_cinfo fl pre post prede postde ctx par tag disc xf_none false.
 Definition empty_class : cinfo := mk_cinfo [] false false false false false.
 Definition cls (E: env) (c: nat) : cinfo := nth c E empty_class.
 
@@ -68,8 +72,8 @@ Fixpoint subclasses_f (E: env) (fuel: nat) (p: nat) : list nat :=
 Definition subclasses (E: env) (p: nat) : list nat := subclasses_f E (length E) p.
 Definition is_sub (E: env) (cr c: nat) : bool := existsb (Nat.eqb cr) (subclasses E c).
 (* registry[tag]: every variant registers variant.__dict__[field]; later variants overwrite earlier ones *)
-Definition lookup_tag (E: env) (vs: list nat) (t: nat) : option nat :=
-  fold_left (fun acc v => if opt_nat_eqb (c_tag (cls E v)) t then Some v else acc) vs None.
+Definition lookup_tag (E: env) (tagger: bool) (vs: list nat) (t: nat) : option nat :=
+  fold_left (fun acc v => if (if tagger then v =? t else opt_nat_eqb (c_tag (cls E v)) t) then Some v else acc) vs None.
 
 (* ---------------------------------------------------------------- values *)
 (* VInst c i j fs: an instance of class c with identity i whose __pre_serialize__ (if the
@@ -408,10 +412,10 @@ Section Unpack.
   (* the variant dispatcher (unpack.py DiscriminatedUnionUnpackerBuilder) over the variants vs, each given as
      "variant.from_dict(value)".  With a field: value[field] (missing key: MissingDiscriminatorError; not a mapping:
      TypeError), then the registered class; without: try every variant in order, `except Exception: pass`. *)
-  Definition dispatch (tag: option (option nat)) (withfield: bool) (vs: list nat) (from_dict: nat -> D) : D :=
+  Definition dispatch (tag: option (option nat)) (withfield tagger: bool) (vs: list nat) (from_dict: nat -> D) : D :=
     if withfield then
       match tag with
-      | Some (Some t) => match lookup_tag E vs t with
+      | Some (Some t) => match lookup_tag E tagger vs t with
                          | Some v => from_dict v
                          | None => dfail end       (* SuitableVariantNotFoundError *)
       | _ => dfail
@@ -438,7 +442,7 @@ Section Unpack.
          match fuel with
          | 0 => plain c
          | S f => match c_disc (cls E c) with
-                  | Some wf => dispatch tag wf (subclasses E c) (fd f)
+                  | Some wf => dispatch tag wf (c_tagger (cls E c)) (subclasses E c) (fd f)
                   | None => plain c
                   end
          end) (S (length E)) c in
@@ -446,7 +450,7 @@ Section Unpack.
       match t with
       | TInt => match w with WInt => dret VInt | _ => dfail end
       | TDc c => call_dc c
-      | TDisc p wf sup => dispatch tag wf (disc_variants p sup) call_dc
+      | TDisc p wf sup => dispatch tag wf false (disc_variants p sup) call_dc
       | TList t' => match w with
                     | WList l => fun n => match dseq (map (fun x => unpack x t') l) n with
                                           | (Some vs, tr, n1) => (Some (VList vs), tr, n1)
